@@ -358,6 +358,9 @@ impl Property for C12 {
                         tokio::time::sleep(std::time::Duration::from_millis(40)).await;
                         if *abandon {
                             writer.abort();
+                            // the reader is still not reading: the actor learns that the writer is gone while
+                            // it waits for room
+                            tokio::time::sleep(std::time::Duration::from_millis(60)).await;
                         }
                         let mut got = vec![];
                         let deadline = std::time::Instant::now() + std::time::Duration::from_secs(30);
@@ -381,7 +384,7 @@ impl Property for C12 {
                             Some(v) => v,
                             None => {
                                 // let the actor finish the write it was busy with: keep reading until nothing comes any more
-                                while let Ok(Ok(ev)) = tokio::time::timeout(std::time::Duration::from_millis(300), rx.recv()).await {
+                                while let Ok(Ok(ev)) = tokio::time::timeout(std::time::Duration::from_millis(40), rx.recv()).await {
                                     got.push(event_tok(&ev, &tok));
                                 }
                                 let mut v = vec![];
